@@ -39,7 +39,16 @@ class UnitRun:
         self.wall = 0.0
 
 
+def default_variants(unit):
+    with open(os.path.join(VERIF, 'units', unit + '.rs.in'), encoding='utf-8') as f:
+        first = f.readline().strip()
+    if first.startswith('//@variants '):
+        return frozenset(first.split()[1:])
+    return frozenset()
+
+
 def build(unit, repo, twin=False, variants=frozenset(), tag=''):
+    variants = frozenset(variants) | default_variants(unit)
     name = unit + ('_twin' if twin else '') + (('_' + '_'.join(sorted(variants))) if variants else '') + tag
     u = extract.build_unit(name, repo,
                            os.path.join(VERIF, 'units', unit + '.rs.in'),
